@@ -18,6 +18,7 @@ natively prints KNOWN-FINDING and is re-decided with EXACTLY the listed leaf sto
   {"id": "...", "property": "C14", "status": "known", "what": "...", "obligations": ["C14/quantizer.Quantizer.quantize/frame.calibration_result", ...],
    "leaf_stores": [{"file": "algorithms/utils/min_max_quantize_utils.py", "function": "<qualname>", "text": "<statement text as printed in the replay file>"}]}
 so a NEW store path to the same parameter is still a violation."""
+import os
 import copy, dataclasses, hashlib, json, os, sys, time
 from vlib import core, effects
 
@@ -368,6 +369,58 @@ def rebinding_selftests(rep):
         rep.notes.append('ParamsGenerator.generate_quantization_parameters does not rebind model_qsvs at top level: guard mutants not applicable')
 
 # ------------------------------------------------------------------------------------------------ run
+
+# ---------------------------------------------------------------------------------------------- reads clause on the Quantizer object
+def self_reads_obligations(rep, src_override=None):
+    """History independence through the Quantizer instance: quantize()/calibrate() may read, of `self`, only the model and the recipe
+    manager (the declared inputs of the property), plus attributes they themselves assigned earlier in the same call.  Decided on the
+    real AST of quantizer.py (methods and properties reached through `self.` are followed)."""
+    import ast
+    rel = 'quantizer.py'; src = src_override if src_override is not None else core.read_source(rel)
+    tree = ast.parse(src); cls = next(n for n in tree.body if isinstance(n, ast.ClassDef) and n.name == 'Quantizer')
+    methods = {m.name: m for m in cls.body if isinstance(m, ast.FunctionDef)}
+    ALLOWED = {'float_model', '_recipe_manager'}
+    def reads(mname, seen):
+        """-> list of (attr, line, via) read by method mname (transitively) that are not assigned earlier at top level of the same method"""
+        if mname in seen or mname not in methods: return []
+        seen = seen | {mname}; m = methods[mname]; out = []
+        assigned_at = {}
+        for st in m.body:                                  # top-level stores only (unconditional)
+            if isinstance(st, ast.Assign):
+                for t in st.targets:
+                    if isinstance(t, ast.Attribute) and isinstance(t.value, ast.Name) and t.value.id == 'self': assigned_at.setdefault(t.attr, st.lineno)
+        for n in ast.walk(m):
+            if isinstance(n, ast.Attribute) and isinstance(n.value, ast.Name) and n.value.id == 'self' and isinstance(n.ctx, ast.Load):
+                if n.attr in methods:
+                    out += [(a, l, f'{mname} -> {v}') for a, l, v in reads(n.attr, seen)]
+                elif not (n.attr in assigned_at and assigned_at[n.attr] < n.lineno):
+                    out.append((n.attr, n.lineno, mname))
+        return out
+    obs = []
+    for entry in ('quantize', 'calibrate'):
+        fn = core.Fn(rel, f'Quantizer.{entry}', src_override=src_override)
+        if src_override is None: rep.fn(fn)
+        bad = sorted({(a, l, v) for a, l, v in reads(entry, frozenset()) if a not in ALLOWED})
+        obs.append(core.Ob(oid(rel, f'Quantizer.{entry}', 'reads.only-model-and-recipe-of-self'), fn, 'ast-dataflow', core.PROVED if not bad else core.REFUTED, 0.0,
+                           detail=f'reads of self outside {sorted(ALLOWED)}: {bad}', clause='result depends only on (model, recipe, arguments): no read of state left on the Quantizer by earlier calls'))
+    return obs
+
+def native_history_replay():
+    """quantize(c1) then quantize(c2) on one Quantizer vs quantize(c2) on a fresh Quantizer: bytes must agree"""
+    try:
+        import absl.logging, numpy as np; absl.logging.set_verbosity('error')
+        from ai_edge_quantizer import quantizer
+        from ai_edge_quantizer.utils import tfl_interpreter_utils as tiu
+        path = os.path.join(core.PKG, 'tests/models/single_fc_bias.tflite'); rec = os.path.join(core.PKG, 'recipes/default_a8w8_recipe.json')
+        itp = tiu.create_tfl_interpreter(path); det = itp.get_signature_runner().get_input_details()
+        d1 = [{n: np.ones(d['shape'], dtype=d['dtype']) for n, d in det.items()}]; d2 = [{n: 3 * np.ones(d['shape'], dtype=d['dtype']) for n, d in det.items()}]
+        q = quantizer.Quantizer(path, rec); c1 = q.calibrate(d1); c2 = q.calibrate(d2)
+        q.quantize(c1); b2 = bytes(q.quantize(c2).quantized_model)
+        f = quantizer.Quantizer(path, rec); fresh = bytes(f.quantize(c2).quantized_model)
+        return dict(confirmed=b2 != fresh, inputs='single_fc_bias.tflite + default_a8w8: quantize(c1); quantize(c2) on one Quantizer vs a fresh Quantizer quantize(c2)', observed=dict(same_bytes=b2 == fresh))
+    except Exception as e:
+        return dict(confirmed=False, note=f'replay could not run: {type(e).__name__}: {e}')
+
 def run(rep):
     t0 = time.time()
     A = effects.Analysis(core.PKG).run()
@@ -405,6 +458,15 @@ def run(rep):
             elif k['id'] not in kf_done: rep.known_finding(k, False); kf_done.add(k['id'])
         rep.add(ob)
     rep.extend(other_obligations(A, fns))
+    for ob in self_reads_obligations(rep):
+        if ob.status == core.REFUTED: ob.replay = native_history_replay()
+        rep.add(ob)
+    # canary for the reads clause: quantize() returning a cached result when the recipe is unchanged
+    _src = core.read_source('quantizer.py'); _a = "    quant_params = self._get_quantization_params(calibration_result)"
+    if _a in _src:
+        mut = _src.replace(_a, "    if self._result.quantized_model is not None and self._result.recipe == self.get_quantization_recipe():\n      return self._result\n" + _a)
+        rep.canary('Quantizer.quantize: result cached on self when the recipe is unchanged', any(o.status == core.REFUTED for o in self_reads_obligations(rep, mut)))
+    else: rep.canary('Quantizer.quantize: result cached on self', False, 'mutation site not found')
     # bounded stand-in (never counted as proved): the native before/after comparison of EVERY entry point / argument must agree
     # with the static verdicts.  It runs when a refuted obligation needed the native scenario anyway, or in the thorough tier.
     if _SCEN or rep.tier == 'thorough':
